@@ -224,14 +224,73 @@ func pathNames(p []*types.Var) string {
 	return strings.Join(s, ".")
 }
 
+// staticCallSites returns the static call sites of fn in library code.
+func staticCallSites(c *Ctx, fn *ssa.Function) []ssa.CallInstruction {
+	var out []ssa.CallInstruction
+	for _, f := range c.P.RepoFuncs(an.LibraryPkg) {
+		for _, call := range an.Calls(f) {
+			if call.Common().StaticCallee() == fn {
+				out = append(out, call)
+			}
+		}
+	}
+	return out
+}
+
+// throughCaller maps a parameter of a helper to the argument at its only call site (one-level
+// summary, DESIGN.md E2). Returns v itself when it is not a parameter.
+func throughCaller(c *Ctx, fn *ssa.Function, v ssa.Value) (ssa.Value, ssa.CallInstruction) {
+	p, ok := an.Unwrap(v).(*ssa.Parameter)
+	if !ok {
+		return v, nil
+	}
+	sites := staticCallSites(c, fn)
+	if len(sites) != 1 {
+		return v, nil
+	}
+	for i, fp := range fn.Params {
+		if fp == p && i < len(sites[0].Common().Args) {
+			return sites[0].Common().Args[i], sites[0]
+		}
+	}
+	return v, nil
+}
+
+// retireFunc finds the function that retires merged parents: it copies to DB.merged and deletes
+// under DB.root. Found by what it does, so that extracting a per-version helper does not lose it.
+func retireFunc(c *Ctx) *ssa.Function {
+	rootF := an.LookupField(c.P, "kv", "DB", "root")
+	mergedF := an.LookupField(c.P, "kv", "DB", "merged")
+	if rootF == nil || mergedF == nil {
+		return nil
+	}
+	var found *ssa.Function
+	for _, fn := range c.P.RepoFuncs(func(rel string) bool { return rel == "kv" }) {
+		if len(persistStoreCalls(fn, mergedF)) == 0 {
+			continue
+		}
+		for _, d := range deleteCalls(fn) {
+			if t := deleteTargetOf(d); t != nil && pathHas(t.PrefixThrough, rootF) {
+				found = fn
+			}
+		}
+	}
+	if found == nil {
+		found = c.P.LookupFunc("kv", "*DB", "moveMergedRoots")
+	}
+	return found
+}
+
 func c03Retire(c *Ctx) {
 	const rule = "C03.retire"
-	fn := mustFunc(c, "kv", "*DB", "moveMergedRoots")
+	fn := retireFunc(c)
 	rootF := mustField(c, "kv", "DB", "root")
 	mergedF := mustField(c, "kv", "DB", "merged")
-	if fn == nil || rootF == nil || mergedF == nil {
+	if fn == nil || len(fn.Blocks) == 0 || rootF == nil || mergedF == nil {
+		c.R.Errorf("cannot find the function that retires merged versions (copy to DB.merged + DELETE under DB.root)")
 		return
 	}
+	c.R.SawFunc(core.FuncName(fn))
 	name := core.FuncName(fn)
 	copies := persistStoreCalls(fn, mergedF)
 	dels := deleteCalls(fn)
@@ -255,8 +314,21 @@ func c03Retire(c *Ctx) {
 	keyV, valV := cargs[2], cargs[3]
 	c.R.Cond(an.SameValue(keyV, tgt.KeySuffix), rule, name+": same version copied and deleted", c.P.Pos(del.Pos()),
 		"the version copied to merged/ is the version deleted from current/", "the copy and the DELETE address different version names")
-	kx, ok1 := an.Unwrap(keyV).(*ssa.Extract)
-	vx, ok2 := an.Unwrap(valV).(*ssa.Extract)
+	// the entry and the guard may live in the caller when the per-version work is a helper
+	keyC, siteK := throughCaller(c, fn, keyV)
+	valC, siteV := throughCaller(c, fn, valV)
+	guardFn := fn
+	var guardTargets []*ssa.BasicBlock
+	if siteK != nil && siteK == siteV {
+		guardFn = siteK.Parent()
+		guardTargets = []*ssa.BasicBlock{siteK.Block()}
+		c.R.SawFunc(core.FuncName(guardFn))
+	} else {
+		keyC, valC = keyV, valV
+		guardTargets = []*ssa.BasicBlock{cp.Block(), del.Block()}
+	}
+	kx, ok1 := an.Unwrap(keyC).(*ssa.Extract)
+	vx, ok2 := an.Unwrap(valC).(*ssa.Extract)
 	sameEntry := ok1 && ok2 && kx.Tuple == vx.Tuple && kx.Index == 1 && vx.Index == 2
 	if sameEntry {
 		if nx, ok := kx.Tuple.(*ssa.Next); !ok || nx.IsString {
@@ -265,11 +337,11 @@ func c03Retire(c *Ctx) {
 	}
 	c.R.Cond(sameEntry, rule, name+": copy carries the entry's bytes", c.P.Pos(cp.Pos()),
 		"the bytes written to merged/<name> are the map value of <name>", "the bytes copied to merged/ are not the recorded bytes of that version name")
-	// never for the new version: both only via the false edge of newRoot == key
-	newRoot := an.ParamNamed(fn, "newRoot")
+	// never for the new version: only via the "not the new version" edge of newRoot == key
+	newRoot := an.ParamNamed(guardFn, "newRoot")
 	guarded := false
 	if newRoot != nil {
-		for _, b := range fn.Blocks {
+		for _, b := range guardFn.Blocks {
 			iff, ok := b.Instrs[len(b.Instrs)-1].(*ssa.If)
 			if !ok {
 				continue
@@ -279,7 +351,7 @@ func c03Retire(c *Ctx) {
 			if !ok || (bo.Op != token.EQL && bo.Op != token.NEQ) {
 				continue
 			}
-			if !(bo.X == newRoot && an.SameValue(bo.Y, keyV) || bo.Y == newRoot && an.SameValue(bo.X, keyV)) {
+			if !(bo.X == newRoot && an.SameValue(bo.Y, keyC) || bo.Y == newRoot && an.SameValue(bo.X, keyC)) {
 				continue
 			}
 			eq := bo.Op == token.EQL
@@ -290,7 +362,13 @@ func c03Retire(c *Ctx) {
 			if !eq {
 				si = 0
 			}
-			if an.OnlyVia(b, si, cp.Block()) && an.OnlyVia(b, si, del.Block()) {
+			all := true
+			for _, t := range guardTargets {
+				if !an.OnlyVia(b, si, t) {
+					all = false
+				}
+			}
+			if all {
 				guarded = true
 			}
 		}
@@ -310,8 +388,13 @@ func c03WhoDeletes(c *Ctx) {
 		return
 	}
 	type allowed struct{ fn, prefix string }
+	retire := retireFunc(c)
+	retireName := "(*kv.DB).moveMergedRoots"
+	if retire != nil {
+		retireName = core.FuncName(retire)
+	}
 	okSites := map[allowed]string{
-		{"(*kv.DB).moveMergedRoots", "root"}:    "retirement after copy (C03.retire)",
+		{retireName, "root"}:                     "retirement after copy (C03.retire)",
 		{"kv.DeleteHistoricVersions", "persist"}: "vacuum: node objects of superseded versions",
 		{"kv.DeleteHistoricVersions", "merged"}:  "vacuum: superseded version objects in merged/",
 		{"kv.DeleteHistoricVersions", "root"}:    "vacuum: the empty current version (guard checked below)",
